@@ -154,13 +154,19 @@ def step (st : St) (j : Json) : St × List String :=
     let r := match jStr j "via" with
       | "pkg" => signJWSHeaders (dedup h)
       | _ => storeSignJWSHeaders (jBool j "found") h (jStr j "kid")
-    (st, [s!"signjws {jStr j "via"} " ++ showHdr r])
+    let au := match jStr j "via" with
+      | "pkg" => signAudit false "" "" (dedup h)
+      | _ => storeSignAudit false "" "" (jBool j "found") h (jStr j "kid")
+    (st, [s!"signjws {jStr j "via"} " ++ showHdr r ++ (match au with | some a => showAudit a | none => "")])
   | "signjwt" =>
     let h := parseHeaders j
     let r := match jStr j "via" with
       | "pkg" => signJWTHeaders (dedup h)
       | _ => storeSignJWTHeaders (jBool j "found") h (jStr j "kid")
-    (st, [s!"signjwt {jStr j "via"} " ++ showHdr r])
+    let au := match jStr j "via" with
+      | "pkg" => signAudit true "me" "%!s(<nil>)" (dedup h)
+      | _ => storeSignAudit true "me" "%!s(<nil>)" (jBool j "found") h (jStr j "kid")
+    (st, [s!"signjwt {jStr j "via"} " ++ showHdr r ++ (match au with | some a => showAudit a | none => "")])
   | "jwkclass" =>
     let rt := jStr j "raw"
     (st, [s!"jwkclass {jStr j "id"} dpop-private={dpopJwkIsPrivate rt} didjwk={didJwkOutcome rt}"])
